@@ -579,3 +579,5 @@ def _allocate_guard_ok(ctx):
     except AnalysisError:
         return False
     return all(o.ok for o in sub.obligations if o.rule in ("R04.guard", "R04.src"))
+
+EXPLANATION += ' Batch 6: field presence by `in` / `is None` (R17.present); no unguarded int()/float() in the code the handlers run (R17.convert); the first call on a connection handle is dominated by a test of it.'
